@@ -121,6 +121,14 @@ def _check_with_info(case):
             out += check_cache(sd, net, i, what=("cand",))
         if owned(sd, net, i):
             info["owning_nodes_answered"] += 1
+    if info["limit_errors"] == 0:
+        # the collective accessor: exactly the expanded nodes with a non-empty list, each mapped to the list its node reports
+        rep = sd.expanded_attractor_candidates()
+        exp = {i: sd.node_attractor_candidates(i) for i in sd.expanded_ids()}
+        exp = {i: l for i, l in exp.items() if l}
+        if rep != exp:
+            out.append(fail("expanded_candidates_differ", "expanded_attractor_candidates() maps every expanded node that has candidates to its complete list",
+                            f"keys {sorted(rep)} vs {sorted(exp)}", observed={str(i): states_json(l) for i, l in rep.items()}))
     return out, info
 
 
